@@ -105,6 +105,50 @@ impl DbProc {
         }
     }
 
+    /// like `request`, but a reply that does not come within `grace` after the child reported a
+    /// panic on stderr is a hang already (a panicked worker thread is what makes open / flush wait
+    /// forever); `deadline` still bounds the wait when nothing is reported
+    pub fn request_quick_hang(&mut self, cmd: &Sx, deadline: Duration, grace: Duration) -> Reply {
+        if self.dead {
+            return Reply::Died;
+        }
+        let line = format!("{}\n", cmd);
+        let w = self.stdin.as_mut().unwrap();
+        if w.write_all(line.as_bytes()).is_err() || w.flush().is_err() {
+            self.dead = true;
+            return Reply::Died;
+        }
+        let t0 = std::time::Instant::now();
+        let mut panic_seen: Option<std::time::Instant> = None;
+        loop {
+            match self.rx.recv_timeout(Duration::from_millis(50)) {
+                Ok(l) => {
+                    return match Sx::parse(l.trim()) {
+                        Ok(s) => Reply::Ok(s),
+                        Err(_) => Reply::Died,
+                    }
+                }
+                Err(std::sync::mpsc::RecvTimeoutError::Timeout) => {
+                    if panic_seen.is_none() && self.stderr.lock().unwrap().contains("panicked at ") {
+                        panic_seen = Some(std::time::Instant::now());
+                    }
+                    let hung = match panic_seen {
+                        Some(t) => t.elapsed() > grace,
+                        None => false,
+                    };
+                    if hung || t0.elapsed() > deadline {
+                        self.kill();
+                        return Reply::Hang;
+                    }
+                }
+                Err(_) => {
+                    self.dead = true;
+                    return Reply::Died;
+                }
+            }
+        }
+    }
+
     pub fn kill(&mut self) {
         let _ = self.child.kill();
         let _ = self.child.wait();
